@@ -112,7 +112,9 @@ type model struct {
 	nActors int
 }
 
-func newModel(n int) *model { return &model{ents: map[int]*entState{}, parked: map[int]op{}, nActors: n} }
+func newModel(n int) *model {
+	return &model{ents: map[int]*entState{}, parked: map[int]op{}, nActors: n}
+}
 
 func (m *model) ent(e int) *entState {
 	s := m.ents[e]
@@ -414,9 +416,9 @@ func (r *runner) replay() scriptReplay {
 
 type exploreStats struct {
 	Leaves, Steps, Grants, ParkObs, StrOK, Nondet int
-	Exhaustive                                 bool
-	Findings                                   []finding
-	Replays                                    []scriptReplay
+	Exhaustive                                    bool
+	Findings                                      []finding
+	Replays                                       []scriptReplay
 }
 
 type frame struct {
